@@ -22,7 +22,6 @@ import io
 import itertools
 import json
 import multiprocessing as mp
-import os
 import random
 import re
 
@@ -480,10 +479,12 @@ CLI_JOBS = {
               ('W', ['-ff', 'martini22', '-elastic', '-noscfix'])],
     'thorough': [('PS', ['-ff', 'martini3001', '-nt', '-noscfix', '-p', 'backbone', '-sep']),
                  ('W', ['-ff', 'martini22', '-elastic', '-noscfix']),
-                 ('H', ['-ff', 'martini3001', '-p', 'all', '-dssp']),
+                 ('H', ['-ff', 'martini3001', '-p', 'all', '-ss', 'H']),
                  ('S', ['-ff', 'elnedyn22', '-noscfix']),
                  ('SW', ['-ff', 'martini3001', '-merge', 'all', '-elastic', '-p', 'backbone']),
-                 ('W', ['-ff', 'martini3001', '-go', '-go-eps', '9.4', '-noscfix'])],
+                 ('W', ['-ff', 'martini3001', '-go', '-go-eps', '9.4', '-noscfix']),
+                 ('UP', ['-ff', 'martini3001', '-elastic', '-p', 'backbone', '-sep']),
+                 ('PSP', ['-ff', 'martini22', '-cys', 'auto', '-noscfix', '-maxwarn', '100'])],
 }
 
 
